@@ -1,7 +1,407 @@
 import Mutagen.Driver.Util
+import Mutagen.Model.Mux
 namespace Mutagen.Driver.C24
+open Mutagen.Driver Mutagen.Model.Mux
 
-/-- Model-side handler for one line of the C24 correspondence stream. -/
-def handle (_line : String) : String := "unimplemented"
+/-!
+Replays one schedule of the multiplexer harness (`harness/muxh`) on the model.
+
+Line: `T <cfgA> <cfgB> <step> … end` with `cfg = window,buffers,backlog` (raw,
+normalised here like `Configuration.normalize`) and steps
+
+  `o:S` OpenStream            `a:S:k` AcceptStream (k = observed stale skips)
+  `r:S:id:n` Read             `w:S:id:hex` Write
+  `cw:S:id` CloseWrite        `c:S:id` Close
+  `dr|dw:S:id:z|p|f<ms>`      SetRead/WriteDeadline (zero, past, now+ms)
+  `x:k` cancel the context of call k      `t:ms` let model time pass
+  `d:S:<frame>` deliver the oldest in-flight frame to S's reader (the frame is
+                what the harness took off the real wire; it must be the model's)
+  `i:S:<frame>` feed an arbitrary frame to S's reader (adversarial peer)
+  `st:S`/`us:S` stall / release S's carrier writes    `mc:S` Multiplexer.Close
+  `end`         release stalls, close A, then B; print both internal errors
+
+Asynchronous calls (o, a, r, w) are numbered in order of issue. After every
+step all pending calls are re-evaluated (the real ones run until every
+goroutine is blocked). Output per step: `sync|completions|framesA|framesB`.
+
+`S …` lines (concurrent stress workloads, judged by the oracle only) answer `ok`.
+-/
+
+inductive OpKind
+  | openWait (id : Nat)
+  | acceptWait (stale : Nat)
+  | read (id n : Nat)
+  | write (id : Nat) (rest : List UInt8) (count : Nat)
+
+structure Op where
+  side : Who
+  kind : OpKind
+  done : Bool := false
+  canceled : Bool := false
+
+structure DState where
+  net : Net
+  now : Nat := 0
+  ops : Array Op := #[]
+  bufsA : Nat
+  bufsB : Nat
+  stalledA : Bool := false
+  stalledB : Bool := false
+  heldA : Bool := false
+  heldB : Bool := false
+  /-- stream handles the program holds -/
+  handles : List (Who × Nat) := []
+  emA : List Msg := []
+  emB : List Msg := []
+  comps : List (Nat × String) := []
+  bad : Option String := none
+
+def DState.stalled (d : DState) : Who → Bool
+  | .a => d.stalledA
+  | .b => d.stalledB
+
+def DState.held (d : DState) : Who → Bool
+  | .a => d.heldA
+  | .b => d.heldB
+
+def DState.bufs (d : DState) : Who → Nat
+  | .a => d.bufsA
+  | .b => d.bufsB
+
+def DState.setSide (d : DState) (w : Who) (s : Side) : DState := { d with net := d.net.setSide w s }
+
+/-- Messages handed to the carrier by `w` (one write buffer). -/
+def DState.emit (d : DState) (w : Who) (ms : List Msg) : DState :=
+  if ms.isEmpty then d else
+  let d := { d with net := d.net.send w ms }
+  match w with
+  | .a => { d with emA := d.emA ++ ms, heldA := d.stalledA }
+  | .b => { d with emB := d.emB ++ ms, heldB := d.stalledB }
+
+def idBound (s : Side) : Nat := max s.nextOut s.largestIn + 3
+
+/-- The enqueue goroutine obtained a write buffer: all pending increments, then
+close-writes, then closes (each group ordered by identifier: canonical form of
+Go's map iteration order). -/
+def DState.flush (d : DState) (w : Who) : DState :=
+  if d.held w ∨ (d.net.side w).closedMux then d else
+  let s := d.net.side w
+  let ids := List.range (idBound s)
+  let (s, m1) := ids.foldl (fun (acc : Side × List Msg) id => let (s', ms) := acc.1.flushIncr id; (s', acc.2 ++ ms)) (s, [])
+  let (s, m2) := ids.foldl (fun (acc : Side × List Msg) id => let (s', ms) := acc.1.flushCW id; (s', acc.2 ++ ms)) (s, m1)
+  let (s, m3) := ids.foldl (fun (acc : Side × List Msg) id => let (s', ms) := acc.1.flushClose id; (s', acc.2 ++ ms)) (s, m2)
+  (d.setSide w s).emit w m3
+
+def showReadRes : ReadRes → String
+  | .data bs => s!"{encHex bs}/ok"
+  | .eof => "-/eof" | .closed => "-/closed" | .muxClosed => "-/muxclosed"
+  | .deadline => "-/deadline" | .block => "block" | .noStream => "nostream"
+
+def showWriteErr : WriteErr → String
+  | .ok => "ok" | .closed => "closed" | .writeClosed => "writeclosed" | .muxClosed => "muxclosed"
+  | .remoteClosed => "remoteclosed" | .deadline => "deadline"
+
+def DState.complete (d : DState) (k : Nat) (res : String) : DState :=
+  { d with comps := d.comps ++ [(k, res)],
+           ops := d.ops.modify k fun o => { o with done := true } }
+
+/-- AcceptStream: `stale` annotated stale skips, then one real accept. -/
+def acceptLoop : Nat → Side → Nat → Bool → Side × List Msg × Nat × Option String
+  | 0, s, stale, _ => (s, [], stale, none)
+  | fuel + 1, s, stale, canceled =>
+    match s.backlog with
+    | [] =>
+      if canceled then (s, [], stale, some "canceled")
+      else if s.closedMux then (s, [], stale, some "muxclosed")
+      else (s, [], stale, none)
+    | id :: _ =>
+      if stale > 0 then
+        match s.streams id with
+        | some st =>
+          if st.remoteClosed then
+            let (s', _, _) := s.acceptOne true canceled
+            acceptLoop fuel s' (stale - 1) canceled
+          else (s, [], stale, some "bad-annotation")
+        | none => (s, [], stale, some "bad-annotation")
+      else
+        match s.acceptOne false canceled with
+        | (s', ms, .ok id') => (s', ms, 0, some s!"ok:{id'}")
+        | (s', ms, _) => (s', ms, 0, some "bad-accept")
+
+/-- Re-evaluate pending call `k`. -/
+def DState.progress (d : DState) (k : Nat) : DState :=
+  match d.ops[k]? with
+  | none => d
+  | some o =>
+    if o.done then d else
+    let s := d.net.side o.side
+    match o.kind with
+    | .openWait id =>
+      match s.openWait id o.canceled with
+      | (_, .block) => d
+      | (s', .ok) => ({ d.setSide o.side s' with handles := d.handles ++ [(o.side, id)] }).complete k s!"ok:{id}"
+      | (s', .rejected) => (d.setSide o.side s').complete k "rejected"
+      | (s', .canceled) => (d.setSide o.side s').complete k "canceled"
+      | (s', .muxClosed) => (d.setSide o.side s').complete k "muxclosed"
+    | .acceptWait stale =>
+      match acceptLoop (stale + 2) s stale o.canceled with
+      | (s', ms, stale', none) =>
+        let d := (d.setSide o.side s').emit o.side ms
+        { d with ops := d.ops.modify k fun o => { o with kind := .acceptWait stale' } }
+      | (s', ms, _, some res) =>
+        let d := (d.setSide o.side s').emit o.side ms
+        let d := if res.startsWith "ok:" then
+            { d with handles := d.handles ++ [(o.side, (res.drop 3).toNat!)] } else d
+        d.complete k res
+    | .read id n =>
+      match s.read id n d.now with
+      | (_, .block) => d
+      | (s', r) => (d.setSide o.side s').complete k (showReadRes r)
+    | .write id rest count =>
+      match s.writePre id d.now with
+      | (s', some e) => (d.setSide o.side s').complete k s!"{count}/{showWriteErr e}"
+      | (s', none) =>
+        if rest.isEmpty then (d.setSide o.side s').complete k s!"{count}/ok" else
+        let (s'', ms, rest') := Side.writeLoop (rest.length + 1) s' id rest []
+        let count' := count + (rest.length - rest'.length)
+        let d := (d.setSide o.side s'').emit o.side ms
+        if rest'.isEmpty then d.complete k s!"{count'}/ok"
+        else { d with ops := d.ops.modify k fun o => { o with kind := .write id rest' count' } }
+
+def DState.progressAll (d : DState) : DState :=
+  (List.range d.ops.size).foldl (fun d k => d.progress k) d
+
+/-- Run until nothing moves: pending calls, then the enqueue goroutines. -/
+def DState.settle (d : DState) : DState :=
+  let d := d.progressAll
+  let d := (d.flush .a).flush .b
+  let d := d.progressAll
+  (d.flush .a).flush .b
+
+def parseWho : String → Option Who
+  | "A" => some .a
+  | "B" => some .b
+  | _ => none
+
+def showReject (r : Reject) : String :=
+  match r with
+  | .unknownKind => "unknownKind" | .zeroId => "zeroId" | .openOutboundId => "openOutboundId"
+  | .openNotMonotone => "openNotMonotone" | .acceptInboundId => "acceptInboundId"
+  | .unopenedInbound => "unopenedInbound" | .unusedOutbound => "unusedOutbound"
+  | .acceptTwice => "acceptTwice" | .acceptAfterClose => "acceptAfterClose"
+  | .zeroLengthData => "zeroLengthData" | .dataPartial => "dataPartial"
+  | .dataAfterCloseWrite => "dataAfterCloseWrite" | .dataAfterClose => "dataAfterClose"
+  | .windowViolated => "windowViolated" | .zeroIncrement => "zeroIncrement"
+  | .incrPartialOutbound => "incrPartialOutbound" | .incrAfterClose => "incrAfterClose"
+  | .incrOverflow => "incrOverflow" | .cwPartialOutbound => "cwPartialOutbound"
+  | .cwAfterClose => "cwAfterClose" | .cwTwice => "cwTwice" | .closeTwice => "closeTwice"
+  | .carrier => "carrier"
+
+def showInternal : Option Reject → String
+  | none => "nil"
+  | some r => showReject r
+
+/-- `kind.id[.arg|.hex]` with the numeric kinds of the wire. -/
+def showFrame (f : Frame) : String :=
+  if f.kind = 0 ∨ f.kind > 6 then toString f.kind
+  else if f.kind = 1 ∨ f.kind = 2 ∨ f.kind = 4 then s!"{f.kind}.{f.id}.{f.arg}"
+  else if f.kind = 3 then s!"{f.kind}.{f.id}.{encHex f.bytes}"
+  else s!"{f.kind}.{f.id}"
+
+def parseFrame (s : String) : Option Frame :=
+  match s.splitOn "." with
+  | [k] => do pure ⟨← k.toNat?, 0, 0, []⟩
+  | [k, id] => do pure ⟨← k.toNat?, ← id.toNat?, 0, []⟩
+  | [k, id, arg] => do
+    let k ← k.toNat?
+    if k = 3 then pure ⟨k, ← id.toNat?, 0, ← decHex arg⟩
+    else pure ⟨k, ← id.toNat?, ← arg.toNat?, []⟩
+  | _ => none
+
+def showFrames (ms : List Msg) : String :=
+  if ms.isEmpty then "-" else ",".intercalate (ms.map fun m => showFrame m.toFrame)
+
+/-- Frames of different streams written during one step commute (and their
+order depends on goroutine scheduling): both sides of the comparison order them
+by stream identifier, keeping the order within a stream. -/
+def canonWire (wire em : List Msg) : List Msg × List Msg :=
+  let em' := em.mergeSort fun x y => x.id ≤ y.id
+  (wire.take (wire.length - em.length) ++ em', em')
+
+def DState.canon (d : DState) : DState :=
+  let (ab, emA) := canonWire d.net.ab d.emA
+  let (ba, emB) := canonWire d.net.ba d.emB
+  { d with net := { d.net with ab := ab, ba := ba }, emA := emA, emB := emB }
+
+def DState.render (d : DState) (sync : String) : DState × String :=
+  let d := d.canon
+  let sorted := (d.comps.toArray.qsort fun x y => x.1 < y.1).toList
+  let comps := if sorted.isEmpty then "-" else
+    ",".intercalate (sorted.map fun (k, r) => s!"{k}={r}")
+  ({ d with emA := [], emB := [], comps := [] }, s!"{sync}|{comps}|{showFrames d.emA}|{showFrames d.emB}")
+
+def DState.hasHandle (d : DState) (w : Who) (id : Nat) : Bool := d.handles.contains (w, id)
+
+def DState.inFlight (d : DState) (w : Who) (p : OpKind → Bool) : Bool :=
+  d.ops.any fun o => !o.done && o.side == w && p o.kind
+
+def okStar (s : Side) : String := if s.closedMux then "ok*" else "ok"
+
+def parseDeadline (s : String) (now : Nat) : Option Deadline :=
+  if s == "z" then some .zero
+  else if s == "p" then some .past
+  else if s.startsWith "f" then (s.drop 1).toNat?.map fun ms => .future (now + ms)
+  else none
+
+def DState.setStalled (d : DState) (w : Who) (v : Bool) : DState :=
+  match w with
+  | .a => { d with stalledA := v, heldA := if v then d.heldA else false }
+  | .b => { d with stalledB := v, heldB := if v then d.heldB else false }
+
+/-- Execute one step token; `none` = malformed. -/
+def DState.step (d : DState) (tok : String) : Option (DState × String) :=
+  match tok.splitOn ":" with
+  | ["o", w] => do
+    let w ← parseWho w
+    if d.stalled w then return (d, "unsupported")
+    let s := d.net.side w
+    let k := d.ops.size
+    match s.openStream with
+    | (s', ms, .started id) =>
+      let d := { (d.setSide w s').emit w ms with ops := d.ops.push { side := w, kind := .openWait id } }
+      pure (d.settle.render "-")
+    | (_, _, .muxClosed) =>
+      let d := { d with ops := d.ops.push { side := w, kind := .openWait 0, done := true }, comps := [(k, "muxclosed")] }
+      pure (d.settle.render "-")
+    | (_, _, .exhausted) =>
+      let d := { d with ops := d.ops.push { side := w, kind := .openWait 0, done := true }, comps := [(k, "other")] }
+      pure (d.settle.render "-")
+  | ["a", w, stale] => do
+    let w ← parseWho w
+    let stale ← stale.toNat?
+    if d.stalled w ∨ (d.net.side w).closedMux then return (d, "unsupported")
+    let d := { d with ops := d.ops.push { side := w, kind := .acceptWait stale } }
+    pure (d.settle.render "-")
+  | ["r", w, id, n] => do
+    let w ← parseWho w
+    let id ← id.toNat?
+    let n ← n.toNat?
+    if !d.hasHandle w id then return (d, "nostream")
+    let d := { d with ops := d.ops.push { side := w, kind := .read id n } }
+    pure (d.settle.render "-")
+  | ["w", w, id, h] => do
+    let w ← parseWho w
+    let id ← id.toNat?
+    let data ← decHex h
+    if !d.hasHandle w id then return (d, "nostream")
+    if d.stalled w then return (d, "unsupported")
+    let d := { d with ops := d.ops.push { side := w, kind := .write id data 0 } }
+    pure (d.settle.render "-")
+  | ["cw", w, id] => do
+    let w ← parseWho w
+    let id ← id.toNat?
+    if !d.hasHandle w id then return (d, "nostream")
+    -- close(s.closedWrite); wait for writers; enqueue the close-write message
+    let already := ((d.net.side w).streams id).any (·.closedWrite)
+    let d := if already then d else
+      let d := (d.setSide w ((d.net.side w).markClosedWrite id)).progressAll
+      d.setSide w ((d.net.side w).enqCW id)
+    pure (d.settle.render (okStar (d.net.side w)))
+  | ["c", w, id] => do
+    let w ← parseWho w
+    let id ← id.toNat?
+    if !d.hasHandle w id then return (d, "nostream")
+    let st ← (d.net.side w).streams id
+    let d := if st.closed then d else
+      -- closeWrite(false): writers leave; close(s.closed): readers leave; enqueue; deregister
+      let d := if st.closedWrite then d else (d.setSide w ((d.net.side w).markClosedWrite id)).progressAll
+      let d := (d.setSide w ((d.net.side w).markClosed id)).progressAll
+      d.setSide w (((d.net.side w).enqClose id).deregister id)
+    pure (d.settle.render (okStar (d.net.side w)))
+  | [dk, w, id, dl] => do
+    let w ← parseWho w
+    let id ← id.toNat?
+    let dl ← parseDeadline dl d.now
+    if !d.hasHandle w id then return (d, "nostream")
+    if dk == "dr" then
+      let (s', ok) := (d.net.side w).setReadDeadline id dl
+      pure ((d.setSide w s').settle.render (if ok then "ok" else "closed"))
+    else if dk == "dw" then
+      let (s', ok) := (d.net.side w).setWriteDeadline id dl
+      pure ((d.setSide w s').settle.render (if ok then "ok" else "writeclosed"))
+    else none
+  | ["x", k] => do
+    let k ← k.toNat?
+    let d := { d with ops := d.ops.modify k fun o => { o with canceled := true } }
+    pure (d.settle.render "-")
+  | [di, w, fr] => do
+    let w ← parseWho w
+    if di == "d" ∧ fr == "none" then
+      if (d.net.inbox w).isEmpty then return (d.settle.render "-") else return (d, "wire-mismatch")
+    let f ← parseFrame fr
+    if di == "d" then
+      match d.net.inbox w with
+      | [] => return (d, "wire-mismatch")
+      | m :: rest =>
+        if m.toFrame ≠ f then return (d, s!"wire-mismatch:{showFrame m.toFrame}")
+        let d := { d with net := d.net.setInbox w rest }
+        if (d.net.side w).closedMux then return (d.settle.render "-")
+        match (d.net.side w).deliverFrame f with
+        | .ok s' => pure ((d.setSide w s').settle.render "-")
+        | .error e => pure (({ d with net := d.net.fail w (some e) }).settle.render s!"rej:{showReject e}")
+    else if di == "i" then
+      if (d.net.side w).closedMux then return (d.settle.render "-")
+      match (d.net.side w).deliverFrame f with
+      | .ok s' => pure ((d.setSide w s').settle.render "-")
+      | .error e => pure (({ d with net := d.net.fail w (some e) }).settle.render s!"rej:{showReject e}")
+    else none
+  | ["t", ms] => do
+    let ms ← ms.toNat?
+    pure (({ d with now := d.now + ms }).settle.render "-")
+  | ["st", w] => do
+    let w ← parseWho w
+    if d.bufs w ≠ 1 ∨ d.inFlight w (fun | .acceptWait _ => true | .write .. => true | _ => false) then
+      return (d, "unsupported")
+    pure ((d.setStalled w true).settle.render "-")
+  | ["us", w] => do
+    let w ← parseWho w
+    pure ((d.setStalled w false).settle.render "-")
+  | ["mc", w] => do
+    let w ← parseWho w
+    pure (({ d with net := d.net.fail w none }).settle.render "ok")
+  | ["end"] =>
+    let d := ((d.setStalled .a false).setStalled .b false).settle
+    let d := ({ d with net := d.net.fail .a none }).settle
+    let d := ({ d with net := d.net.fail .b none }).settle
+    let (d, out) := d.render "end"
+    some (d, s!"{out}|{showInternal d.net.a.internalErr}|{showInternal d.net.b.internalErr}")
+  | _ => none
+
+def parseCfg (s : String) : Option (Int × Nat × Int) :=
+  match s.splitOn "," with
+  | [w, b, k] => do
+    let w ← w.toInt?
+    let b ← b.toInt?
+    let k ← k.toInt?
+    pure (w, if b ≤ 0 then 1 else b.toNat, k)
+  | _ => none
+
+def runSteps (d : DState) : List String → List String → String
+  | [], acc => " ".intercalate acc.reverse
+  | tok :: rest, acc =>
+    match d.step tok with
+    | none => " ".intercalate (("bad-step:" ++ tok) :: acc).reverse
+    | some (d', out) => runSteps d' rest (out :: acc)
+
+def handle (line : String) : String :=
+  match fields line with
+  | "S" :: _ => "ok"
+  | "T" :: ca :: cb :: steps =>
+    match parseCfg ca, parseCfg cb with
+    | some (wa, ba, ka), some (wb, bb, kb) =>
+      let d : DState := { net := Net.init wa ka wb kb, bufsA := ba, bufsB := bb }
+      runSteps d steps []
+    | _, _ => "bad-line"
+  | _ => "bad-line"
 
 end Mutagen.Driver.C24
